@@ -31,6 +31,17 @@ pub fn fmt_b(a: &u8, f: &mut core::fmt::Formatter<'_>) -> core::fmt::Result { f.
 pub struct K(pub u64);
 impl Hash for K { fn hash<H: Hasher>(&self, h: &mut H) { h.write_u64(self.0 ^ 0x5a5a) } }
 
+/// field type whose own Clone::clone is counted per slot ID (once-ness of clone())
+pub static mut CTR: [u8; 6] = [0; 6];
+#[derive(PartialEq, Debug)]
+pub struct Ctr<const ID: usize>(pub u8);
+impl<const ID: usize> Clone for Ctr<ID> {
+    fn clone(&self) -> Self { unsafe { CTR[ID] = CTR[ID].wrapping_add(1); } Ctr(self.0) }
+}
+impl<const ID: usize> Copy for Ctr<ID> {}
+pub fn ctr_reset() { unsafe { CTR = [0; 6]; } }
+pub fn ctr_counts() -> [u8; 6] { unsafe { CTR } }
+
 /// partially ordered byte: 255 is incomparable with everything (NaN-like)
 #[derive(Clone, Copy, Debug, PartialEq)]
 pub struct Inc(pub u8);
@@ -119,6 +130,7 @@ impl Val for u64 { fn draw<S: Src>(s: &mut S) -> Self { s.u64() } }
 impl Val for f32 { fn draw<S: Src>(s: &mut S) -> Self { s.f32() } }
 impl Val for () { fn draw<S: Src>(_s: &mut S) -> Self { } }
 impl Val for crate::m::K { fn draw<S: Src>(s: &mut S) -> Self { crate::m::K(s.u64()) } }
+impl<const ID: usize> Val for crate::m::Ctr<ID> { fn draw<S: Src>(s: &mut S) -> Self { crate::m::Ctr(s.u8()) } }
 impl Val for crate::m::Inc { fn draw<S: Src>(s: &mut S) -> Self { crate::m::Inc(s.u8()) } }
 
 #[cfg(kani)]
